@@ -24,10 +24,14 @@
 // the case's impl leg becomes "crash asan"; the process is not re-forked per faulty case (a defect
 // that over-reads makes tens of thousands of cases faulty).  Only the first reports are printed.
 namespace vh_asan {
-inline unsigned long hits = 0;
+inline unsigned long hits       = 0;
+inline unsigned long case_start = 0;
 inline void on_report(char const* /*text*/)
 {
     ++hits;
+    // a loop that runs away through poisoned memory never ends in recover mode: give up on the
+    // case (the supervisor reports it as a crash and re-forks)
+    if (hits - case_start > 64) { std::_Exit(86); }
     if (hits == 3) {
         int fd = open("/dev/null", O_WRONLY);
         if (fd >= 0) {
@@ -390,7 +394,8 @@ static bool dispatch(std::string const& op, Toks& in, Out& impl, Out& ref);
 bool vh::run_case(std::string const& op, Toks& in, Out& impl, Out& ref)
 {
 #if defined(__SANITIZE_ADDRESS__)
-    auto const before = vh_asan::hits;
+    auto const before   = vh_asan::hits;
+    vh_asan::case_start = before;
     auto const known  = dispatch(op, in, impl, ref);
     if (vh_asan::hits != before) {
         impl.s.clear();
